@@ -218,3 +218,44 @@ Definition spec_msg_nonempty (kind : Z) : bool := true.
 
 Definition known_kind (kind : Z) : bool :=
   ((1 <=? kind) && (kind <=? 37)) || ((41 <=? kind) && (kind <=? 47)) || ((51 <=? kind) && (kind <=? 57)).
+
+(* ------------------------------------------------------------------ *)
+(* argument-dependent raises                                            *)
+
+(* the exact value of a finite argument as a fraction num / 2^k *)
+Definition spec_to_integer (a : argval) : ext :=        (* 9.4 ToInteger *)
+  match a with
+  | AUndef | ANaN => EFin 0
+  | AInf true => ENeg
+  | AInf false => EPos
+  | AFin m e => EFin (if 0 <=? e then m * 2 ^ e else Z.sgn m * (Z.abs m / 2 ^ (- e)))   (* sign * floor(abs) *)
+  end.
+
+(* ToUint32(v) = v: v is an integer of 0 .. 2^32-1 *)
+Definition spec_is_uint32 (a : argval) : bool :=
+  match a with
+  | AFin m e =>
+      if 0 <=? e then (0 <=? m * 2 ^ e) && (m * 2 ^ e <=? 2 ^ 32 - 1)
+      else (Z.abs m mod 2 ^ (- e) =? 0) && (0 <=? m) && (m / 2 ^ (- e) <=? 2 ^ 32 - 1)
+  | _ => false
+  end.
+
+(* Some true: ES5 requires a RangeError; Some false: requires none; None: the
+   NOTE of 15.7.4.6/7 permits an implementation to extend the range *)
+Definition spec_throws (fn : Z) (a : argval) : option bool :=
+  let i := spec_to_integer a in
+  match fn with
+  | 1 => Some (match a with AUndef => false | _ => ext_lt i 2 || ext_gt i 36 end)   (* 15.7.4.2 *)
+  | 2 => Some (ext_lt i 0 || ext_gt i 20)                                            (* 15.7.4.5 step 2 *)
+  | 3 => match a with
+         | AUndef => Some false
+         | _ => if ext_lt i 0 then Some true else if ext_gt i 20 then None else Some false   (* 15.7.4.6 *)
+         end
+  | 4 => match a with
+         | AUndef => Some false
+         | _ => if ext_lt i 1 then Some true else if ext_gt i 21 then None else Some false   (* 15.7.4.7 *)
+         end
+  | 5 => Some (match a with AUndef => false | _ => negb (spec_is_uint32 a) end)      (* 15.4.2.2 *)
+  | 6 => Some (negb (spec_is_uint32 a))                                              (* 15.4.5.1 step 3.c *)
+  | _ => None
+  end.
